@@ -818,8 +818,19 @@ func (fr *Frame) typeAssert(x *ssa.TypeAssert, st *State, reach string) Val {
 		c.smt.assume(implies(eq(c.termOf(v), "0"), not(ok)), "type assertion on nil interface fails")
 		return Val{T: x.Type(), Tuple: []Val{res, {T: types.Typ[types.Bool], Term: ok}}}
 	}
+	if v.Dyn != nil && types.Identical(v.Dyn.T, x.AssertedType) {
+		return v.Dyn.V // the dynamic type is known statically
+	}
 	if _, isIface := x.AssertedType.Underlying().(*types.Interface); !isIface {
-		fr.oblige("safety", "type assertion "+c.eng.srcText(x.Pos(), ""), reach, "false", x.Pos())
+		// the assertion succeeds when the interface value holds exactly this type (iface_type), which a contract
+		// can require with isType(x, T); for a pointer to a struct the result is the stored pointer (iface_payload)
+		c.smt.declareFun("iface_type", []string{"Int"}, "Int")
+		c.smt.declareFun("iface_payload", []string{"Int"}, "Int")
+		it := c.termOf(v)
+		fr.oblige("safety", "type assertion "+c.eng.srcText(x.Pos(), ""), reach, and(not(eq(it, "0")), eq(app("iface_type", it), fmt.Sprint(goTypeTag(x.AssertedType)))), x.Pos())
+		if _, ok := ptrToStruct(x.AssertedType); ok {
+			return Val{T: x.AssertedType, Term: c.smt.define("ta", "Int", app("iface_payload", it))}
+		}
 	}
 	return fr.havocVal(x.AssertedType, "ta")
 }
